@@ -242,3 +242,20 @@ prop("C20",
      level_text="Generated fault sequences over the whole retry loop, batched to amortise the fixed back-off sleeps; about a hundred topologies per quick run, thousands in thorough.",
      level_note="Trusted: the script interpreter (factory) in c20_test.go. Hook: slotsupervisor.VerifNew replaces only the connection factory. updateSlotTopology's use of the result at sync start is exercised in the end-to-end checks, not here.",
      assumptions=["INFO replication replies are CRLF separated (as Redis emits them)"])
+
+prop("C17",
+     title="Decode mode prints every element of the RDB, recoverably",
+     quick=[{"re": "^TestC17$", "checks": 500, "shards": 2}],
+     thorough=[{"re": "^TestC17$", "checks": 60000, "shards": 12, "timeout": 1700}],
+     rule="RDB files from the C01 generator restricted to classic types in every encoding (ziplist/intset/zipmap/quicklist/LZF/int strings), binary "
+          "keys/fields/members (non-printable, invalid UTF-8), scores incl. +-inf and -0, 0-3 dbs (numbers up to 70000), expiries, aux/resizedb/"
+          "module-aux, lua scripts; parallel = 1..8; the real CmdDecode.decode on temp files. Oracle: the output parsed line by line as JSON and "
+          "reduced to (db,type,expireat,key64,index|field64|member64,value64|score bits) must equal, as a multiset, the expected lines built from the "
+          "logical values (one per string / list element with index / hash field / set member / zset member / script); base64 fields byte-exact, "
+          "scores numerically equal (a non-finite score may be a string); no abort; the call returns. Non-trivial: >=1 non-printable key, >=3 value "
+          "types, parallel >= 2. Distinct = hash of (file, parallel).",
+     technique="property-based testing (rapid): construction oracle (expected multiset of output lines known from the generated logical values) over generated files and worker counts",
+     level_text="Generated files x worker counts with a multiset-equality oracle; worker schedules are whatever the Go runtime produces for 1-8 workers (sampled).",
+     level_note="Trusted: the RDB generator and the line canonicaliser. The aux line's value64 is accepted raw or base64 (the statement only demands the line). Hashes beyond 16 MiB are a known finding (decode aborts) and are only replayed in the regression tier.",
+     assumptions=["NaN scores are not generated",
+                  "line order across keys is unspecified; per-list indexes are checked through the index field"])
